@@ -97,8 +97,8 @@ CLAIMED = {
         "note": "Trusted: serde option-name mapping; dst values are identifier names.",
     },
     "C08": {
-        "technique": "grammar-position rules on constructed output: PAREN-WRAP, GROUP, PROGRAM-KIND, ARROW-BLOCK, INVENTORY, trailer-is-a-line-comment",
-        "text": "Does NOT decide validity of swc's printed text. Decides the structural conditions the rewriter itself controls: sequences parenthesised, hoisted comma expressions parenthesised, program kind untouched, arrow bodies become blocks, only documented node kinds, trailer on its own comment line.",
+        "technique": "grammar-position rules on constructed output: PAREN-WRAP, GROUP (assign-right, paren-strip), PROGRAM-KIND, trailer-is-a-line-comment",
+        "text": "Does NOT decide validity of swc's printed text. Decides the structural conditions the rewriter itself controls: sequences parenthesised, hoisted comma expressions parenthesised, program kind untouched, trailer on its own comment line.",
         "design_ref": "DESIGN.md §3 C08",
         "note": "Trusted: swc code generator prints a valid program for a well-formed tree.",
     },
